@@ -261,6 +261,15 @@ func runC06(t *testing.T, p *core.Plan) *core.Result {
 	cfg.Chunk = p.Knob("chunk", 0)
 	cfg.QueueSize = p.Knob("queue", 100)
 	cfg.Inflight = p.Knob("inflight", 10)
+	if cfg.QueueSize < len(p.Items)+10 {
+		// capacity is not this check's subject: with a session queue smaller than
+		// the traffic, a publisher that waits for room in a subscriber's queue
+		// holds the backend's global mutex, and if that subscriber's processor is
+		// itself waiting for the mutex nobody moves until a token timeout
+		// (MemoryBackend's documented limitation; C14's slow-consumer class and
+		// the C13 known finding look at that regime)
+		cfg.QueueSize = len(p.Items) + 10
+	}
 	cfg.GateBackend = p.Knob("gate", 0) == 1
 	cfg.ParkN = p.Knob("park", 0)
 	// pipelining more QoS 2 publishes than publish tokens stalls the connection
